@@ -99,7 +99,7 @@ def _leaf_value(t):
 def build(t):
     """the roller for a tree, sometimes labelled afterwards with .annotate() (a copy that must roll as its own roller)"""
     r = _build(t)
-    v = _variant(["annotate", t], 5)
+    v = _variant(["annotate", t], 5) if t[0] != "un" else 9    # unary nodes stay unlabelled (and see _build)
     if v == 0:
         return r.annotate("label")
     if v == 1:
@@ -144,7 +144,8 @@ def _build(t):
         return BIN[name][1](build(t[2]), build(t[3]))
     if k == "un":
         name = t[1]
-        if name in ("neg", "abs", "inv") and _variant(t, 2):
+        same_op_twice = t[2][0] == "un" and t[2][1] == name
+        if name in ("neg", "abs", "inv") and _variant(t, 2) and not same_op_twice:     # -(-x), ~(~x): through the dunders
             op = {"neg": operator.__neg__, "abs": operator.__abs__, "inv": operator.__invert__}[name]
             return build(t[2]).umap(op)
         return UN[name][1](build(t[2]))
